@@ -2,3 +2,8 @@ import Rp2.Props.C05
 #print axioms Rp2.C05.long_iff
 #print axioms Rp2.C05.income_short
 #print axioms Rp2.C05.never_long
+#print axioms Rp2.C05.us_365
+#print axioms Rp2.C05.es_365
+#print axioms Rp2.C05.jp_never
+#print axioms Rp2.C05.ie_never
+#print axioms Rp2.C05.generic_configured
